@@ -1,5 +1,6 @@
 import NomtModel.Driver.CoreMode
 import NomtModel.Driver.ApiMode
+import NomtModel.Driver.ImageMode
 /-!
 `nomt_model`: the executable Lean model behind a line protocol.
 First argument selects the sub-protocol; stdin → stdout, one output line per input line.
@@ -19,4 +20,5 @@ def main (args : List String) : IO UInt32 := do
   match args with
   | ["core"] => loop stdin stdout coreStep {}; return 0
   | ["api"] => loop stdin stdout apiStep { root := zeros32 }; return 0
+  | ["image"] => imageLoop stdin stdout; return 0
   | _ => IO.eprintln "usage: nomt_model <core|...>"; return 2
